@@ -63,13 +63,13 @@ type Sim struct {
 	U  *Universe
 	rt []*sgRuntime
 
-	mu   sync.Mutex
-	log  []*Request
-	seq  int
+	mu  sync.Mutex
+	log []*Request
+	seq int
 	// hooks (all optional)
-	Intercept func(r *Request) (*http.Response, error, bool) // fault injection: handled=true short-cuts
-	RespHeader func(r *Request) http.Header
-	Gate      func(r *Request) // blocks until the harness releases the response
+	Intercept   func(r *Request) (*http.Response, error, bool) // fault injection: handled=true short-cuts
+	RespHeader  func(r *Request) http.Header
+	Gate        func(r *Request)                            // blocks until the harness releases the response
 	PostProcess func(r *Request, body []byte) (int, []byte) // rewrite a computed answer (wrong entity count ...)
 	// Provenance, when non-nil, receives (request, object identity, field) for
 	// every field a subgraph resolves: who supplied which datum (C07).
@@ -86,21 +86,27 @@ func NewSim(l *Layout, u *Universe) (*Sim, error) {
 		rt := &sgRuntime{sg: sg, keys: map[string][]string{}, allKeys: map[string][]string{}}
 		sdl := sg.SDL + fedDirectives
 		var ents []string
+		pre, err := ParseSubgraphSDL(sg.SDL)
+		if err != nil {
+			return nil, fmt.Errorf("subgraph %s schema: %v\n%s", sg.Name, err, sg.SDL)
+		}
 		for _, t := range l.S.Types {
-			if t.Kind == "object" && t.IsEntity() && strings.Contains(sg.SDL, "type "+t.Name+" ") {
-				for _, k := range t.Keys {
-					rt.allKeys[t.Name] = append(rt.allKeys[t.Name], k.Fields)
+			def := pre.Types[t.Name]
+			if t.Kind != "object" || !t.IsEntity() || def == nil {
+				continue
+			}
+			// the keys this subgraph declares (its SDL is the authority)
+			resolvable := false
+			for _, d := range def.Directives.ForNames("key") {
+				fields, _ := dirArg(d, "fields")
+				rt.allKeys[t.Name] = append(rt.allKeys[t.Name], fields)
+				if r, ok := dirArg(d, "resolvable"); !ok || r != "false" {
+					rt.keys[t.Name] = append(rt.keys[t.Name], fields)
+					resolvable = true
 				}
-				unres := false
-				for _, x := range l.Unresolv[t.Name] {
-					if x == sg.Index {
-						unres = true
-					}
-				}
-				if !unres {
-					rt.keys[t.Name] = rt.allKeys[t.Name]
-					ents = append(ents, t.Name)
-				}
+			}
+			if resolvable {
+				ents = append(ents, t.Name)
 			}
 		}
 		hasQuery := strings.Contains(sg.SDL, "type Query")
